@@ -778,6 +778,9 @@ def compare(chk, pc, got, want, syms, path='value'):
     return [f"{path}: unhandled kind {k}"]
 
 
+INT_RANGES = {f"{sg}{b}": ((0, 2**b - 1) if sg == 'u' else (-2**(b - 1), 2**(b - 1) - 1)) for sg in 'ui' for b in (8, 16, 32, 64, 128)}
+
+
 def make_judge(syms_of):
     def judge(items, info, chk, pc, nwarn):
         ev = Evaluator(items)
@@ -814,6 +817,14 @@ def make_judge(syms_of):
         outer = got[1] if got[0] in ('wrap', 'enum', 'variant', 'struct') and isinstance(got[1], str) else None
         if decl and len(decl) == 1 and isinstance(decl[0], TIdent) and idname(decl[0]) in generated and outer in generated and idname(decl[0]) != outer:
             return [('declared-type', f"declared as {idname(decl[0])}, but the initialiser is a value of type {outer}")]
+        # a list of integer literals declared as Vec<fixed-width integer>: every element must be a value of that type (C06: the
+        # element type is chosen from the element's constraint, not from whichever item comes first)
+        dnames = [idname(t_) for t_ in (decl or []) if isinstance(t_, TIdent)]
+        if 'Vec' in dnames and dnames[-1] in INT_RANGES and unwrap(got)[0] == 'list':
+            lo_, hi_ = INT_RANGES[dnames[-1]]
+            for el in unwrap(got)[1]:
+                if el[0] == 'int' and isinstance(el[1], int) and not lo_ <= el[1] <= hi_:
+                    return [('declared-type', f"declared as Vec<{dnames[-1]}>, but the element {el[1]} is not a value of {dnames[-1]}")]
         want_ty = getattr(info['expect'], 'ty', None)
         if want_ty and unwrap(got)[0] == 'enum' and unwrap(got)[1] != want_ty:
             return [('value', f"enumeral of type {unwrap(got)[1]}, the governing ENUMERATED type is {want_ty}")]
